@@ -600,12 +600,12 @@ func (g *Gen) appendBuiltin(v ssa.Value, cc *ssa.CallCommon, st *State, r string
 			if ids := lastIDs[pr]; len(ids) > 0 && pr != "pathid" {
 				var alts []string
 				for _, id := range ids {
-					alts = append(alts, "(= (p_f (l_path l)) "+id+")")
+					alts = append(alts, "(= (pth_f (l_path l)) "+id+")")
 				}
 				sort.Strings(alts)
 				idc = " ((_ is pfld) (l_path l)) " + orTerms(alts)
 			}
-			inRange = append(inRange, "(and ((_ is pelm) ("+pr+" (l_path l))) (<= (+ (s_off "+s.T+") "+lenS+") (p_i ("+pr+" (l_path l)))) (< (p_i ("+pr+" (l_path l))) (+ (s_off "+s.T+") "+newLen+"))"+idc+")")
+			inRange = append(inRange, "(and ((_ is pelm) ("+pr+" (l_path l))) (<= (+ (s_off "+s.T+") "+lenS+") (pth_i ("+pr+" (l_path l)))) (< (pth_i ("+pr+" (l_path l))) (+ (s_off "+s.T+") "+newLen+"))"+idc+")")
 		}
 		sort.Strings(inRange)
 		g.assume("(=> " + fits + " (forall ((l Loc)) (! (=> (and (= (l_obj l) (l_obj (s_arr " + s.T + "))) (not " + orTerms(inRange) + ")) (= (select " + hn + " l) (select " + hold + " l))) :pattern ((select " + hn + " l)))))")
@@ -641,7 +641,7 @@ func (g *Gen) rootChanged(addr string, el types.Type, k string, loc string) stri
 			pr := elemPathOf(path)
 			c := "((_ is pelm) (" + pr + " (l_path " + loc + ")))"
 			if m := lastFldID.FindStringSubmatch(path("@")); m != nil && pr != "pathid" {
-				c = "(and ((_ is pfld) (l_path " + loc + ")) (= (p_f (l_path " + loc + ")) " + m[1] + ") " + c + ")"
+				c = "(and ((_ is pfld) (l_path " + loc + ")) (= (pth_f (l_path " + loc + ")) " + m[1] + ") " + c + ")"
 			}
 			alts = append(alts, c)
 		})
